@@ -2,6 +2,7 @@ import Pycoin.Props.C08
 import Pycoin.Model.ParseText
 import Pycoin.Proofs.Bytes
 import Pycoin.Proofs.ParseTextRt2
+import Pycoin.Proofs.RealKeyEnv
 /-!
 C18 — text parsing is total, faithful and keeps kinds apart.
 
@@ -907,6 +908,157 @@ theorem C18_electrum_refuses (ke : KeyEnv) (s : String) (blob : Bytes) (hb : ele
     ((blob.length ≠ 32 ∨ beNat blob = 0 ∨ beNat blob ≥ ke.order) → parseElectrumPrv ke s = .ok none) ∧
     ((blob.length ≠ 64 ∨ beNat (blob.take 32) ≥ ke.p ∨ beNat (blob.drop 32) ≥ ke.p) → parseElectrumPub ke s = .ok none) :=
   ⟨parseElectrumPrv_refuses ke s blob hb, parseElectrumPub_refuses ke s blob hb⟩
+
+/-! ## the same for the real codecs and the real curve: no hypothesis left
+
+`realEnv` (Model/RealEnv.lean: the C11 codec models and the hash models) with `real_laws : CodecLaws realEnv`
+(Proofs/RealEnv.lean), and `realKeyEnv` (Model/RealKeyEnv.lean: the C02 curve model — `raw_mul`, `points_for_x`,
+`contains_point` — over the generator parameters every network shares, the HMAC-SHA512 model, the Electrum stretching
+loop) with `real_key_laws : KeyLaws realKeyEnv` (Proofs/RealKeyEnv.lean: from the C02 theorems about secp256k1 —
+`points_for_x` without side condition, `raw_mul(se) = se • G` reduced, `se • G ≠ ∞` for `1 ≤ se < n` by the primality of `n`).
+These are the environments the C18 driver evaluates, for every network of the table. -/
+
+/-- ★ extended keys, real codecs and curve (`C18_extkey_reserialises` with both hypotheses discharged) -/
+theorem C18_extkey_reserialises_real (net : Network) (hn : net ∈ all)
+    (kind : Nat) (prv : Bool) (s : String) (o : Obj) (h : hparse realEnv realKeyEnv net kind prv s = .ok (some o)) :
+    ∃ data n, parseB58Hashed realEnv net s = some data ∧ data.length = 78 ∧ o = .node n ∧ n.kind = kind ∧
+      n.depth ≤ 255 ∧ n.fingerprint.length = 4 ∧ n.childIndex < 2 ^ 32 ∧ n.chainCode.length = 32 ∧
+      n.key.InRange realKeyEnv ∧ n.key.compressed = true ∧ (n.key.se.isSome ↔ slice data 45 46 = [0]) ∧
+      (¬ MarkerMismatch data prv →
+        hwif realEnv net n prv = .ok s ∧ hparse realEnv realKeyEnv net kind prv s = .ok (some (.node n))) :=
+  C18_extkey_reserialises realEnv real_laws realKeyEnv real_key_laws net hn kind prv s o h
+
+theorem C18_extkey_reserialises_bip_real (net : Network) (hn : net ∈ all) (kind : Nat) (s : String) (o : Obj)
+    (h : parseBip realEnv realKeyEnv net kind s = .ok (some o)) :
+    ∃ prv data n, parseB58Hashed realEnv net s = some data ∧ o = .node n ∧ n.kind = kind ∧ n.key.InRange realKeyEnv ∧
+      (¬ MarkerMismatch data prv →
+        hwif realEnv net n prv = .ok s ∧ parseBip realEnv realKeyEnv net kind s = .ok (some (.node n))) :=
+  C18_extkey_reserialises_bip realEnv real_laws realKeyEnv real_key_laws net hn kind s o h
+
+/-- ★ extended keys refused, real codecs and curve: exponent `0` or `≥ n` (the secp256k1 order), or a key field the strict SEC
+decoder refuses -/
+theorem C18_extkey_refuses_real (net : Network) (kind : Nat) (prv : Bool) (s : String) (data : Bytes)
+    (hd : parseB58Hashed realEnv net s = some data)
+    (h : (slice data 45 46 = [0] ∧ (beNat (data.drop 46) = 0 ∨ beNat (data.drop 46) ≥ Pycoin.Gen.Networks.genOrder)) ∨
+         (slice data 45 46 ≠ [0] ∧ ∃ e, secToPublicPair realKeyEnv (data.drop 45) = .error e)) :
+    hparse realEnv realKeyEnv net kind prv s = .ok none :=
+  C18_extkey_refuses realEnv realKeyEnv net kind prv s data hd h
+
+/-- ★ SEC text, real curve -/
+theorem C18_sec_reserialises_real (net : Network) (hn : net ∈ all) (s : String) (o : Obj)
+    (h : parseSec realKeyEnv net s = .ok (some o)) :
+    ∃ sec k t, h2b (secBody net s) = some sec ∧ o = .key k ∧ k.se = none ∧ k.InRange realKeyEnv ∧
+      k.compressed = decide (sec.take 1 = [2] ∨ sec.take 1 = [3]) ∧ secOf k k.compressed = .ok sec ∧
+      secText net k = .ok t ∧ parseSec realKeyEnv net t = .ok (some (.key k)) :=
+  C18_sec_reserialises realKeyEnv real_key_laws net hn s o h
+
+/-- ★ SEC text refused, real curve: wrong shape; `x ≥ p` or no curve point with this `x` (`Curve.pointsForX` raises);
+uncompressed with a coordinate `≥ p` or off the curve -/
+theorem C18_sec_refuses_real (net : Network) (s : String) (sec : Bytes) (hs : h2b (secBody net s) = some sec) :
+    (¬ ((sec.length = 65 ∧ sec.take 1 = [4]) ∨ (sec.length = 33 ∧ (sec.take 1 = [2] ∨ sec.take 1 = [3]))) →
+      parseSec realKeyEnv net s = .ok none) ∧
+    (∀ b xs, sec = b :: xs → xs.length = 32 →
+      (beNat xs ≥ Pycoin.Gen.Networks.genP ∨ realKeyEnv.pointsForX (beNat xs : Int) = none) →
+      parseSec realKeyEnv net s = .ok none) ∧
+    (∀ xs ys, sec = 4 :: (xs ++ ys) → xs.length = 32 → ys.length = 32 →
+      (beNat xs ≥ Pycoin.Gen.Networks.genP ∨ beNat ys ≥ Pycoin.Gen.Networks.genP ∨
+        Curve.containsXY curve (beNat xs : Int) (beNat ys : Int) = false) →
+      parseSec realKeyEnv net s = .ok none) :=
+  C18_sec_refuses realKeyEnv net s sec hs
+
+/-- ★ public pairs, real codecs and curve -/
+theorem C18_public_pair_reserialises_real (net : Network) (hn : net ∈ all)
+    (s : String) (o : Obj) (h : parsePublicPair realKeyEnv s = .ok (some o)) :
+    ∃ k t, o = .key k ∧ k.se = none ∧ k.compressed = true ∧ ReducedPt realKeyEnv k.pub ∧ k.InRange realKeyEnv ∧
+      keyText realEnv net k = .ok t ∧ parseSec realKeyEnv net t = .ok (some (.key k)) :=
+  C18_public_pair_reserialises realEnv realKeyEnv real_key_laws net hn s o h
+
+theorem C18_public_pair_refuses_real (s : String) :
+    parsePublicPair realKeyEnv s = .ok none ∨
+      ∃ k, parsePublicPair realKeyEnv s = .ok (some (.key k)) ∧ ReducedPt realKeyEnv k.pub ∧
+        Curve.containsXY curve k.pub.1 k.pub.2 = true :=
+  C18_public_pair_refuses realKeyEnv real_key_laws s
+
+/-- ★ secret exponents, real codecs and curve: `1 ≤ v < n` for the secp256k1 order, public pair `v • G` -/
+theorem C18_secret_exponent_reserialises_real (net : Network)
+    (hn : net ∈ all) (s : String) (o : Obj) (h : parseSecretExponent realKeyEnv s = .ok (some o)) :
+    ∃ v k, asNumber s = some v ∧ 1 ≤ v ∧ v < Pycoin.Gen.Networks.genOrder ∧ o = .key k ∧ k.se = some v.toNat ∧
+      k.compressed = true ∧ k.InRange realKeyEnv ∧
+      ∀ p, net.parseWif = some p →
+        ∃ t, keyText realEnv net k = .ok t ∧ parseWif realEnv realKeyEnv net t = .ok (some (.key k)) :=
+  C18_secret_exponent_reserialises realEnv real_laws realKeyEnv real_key_laws net hn s o h
+
+theorem C18_secret_exponent_refuses_real (s : String) (v : Int) (hv : asNumber s = some v)
+    (hr : v < 1 ∨ v ≥ Pycoin.Gen.Networks.genOrder) : parseSecretExponent realKeyEnv s = .ok none :=
+  C18_secret_exponent_refuses realKeyEnv s v hv hr
+
+/-- … and conversely every number in `[1, n)` IS accepted on the real curve (`se • G ≠ ∞` is on the curve: the
+`contains_point` check of `Key.__init__` passes), so acceptance is exactly `1 ≤ v < n` -/
+theorem C18_secret_exponent_accepts_real (s : String) (v : Int) (hv : asNumber s = some v) :
+    (∃ o, parseSecretExponent realKeyEnv s = .ok (some o)) ↔ (1 ≤ v ∧ v < Pycoin.Gen.Networks.genOrder) := by
+  constructor
+  · rintro ⟨o, h⟩
+    by_contra hr
+    have := C18_secret_exponent_refuses realKeyEnv s v hv (by show v < 1 ∨ v ≥ (Pycoin.Gen.Networks.genOrder : Int); omega)
+    rw [this] at h; cases h
+  · rintro ⟨h1, h2⟩
+    have hk := mkPrivateKey_of (ke := realKeyEnv) true h1 h2
+      (real_mulG_on_curve v.toNat (by omega) (by show v.toNat < Pycoin.Gen.Networks.genOrder; omega))
+    have h0 : ¬ v = 0 := by omega
+    refine ⟨.key ⟨some v.toNat, realKeyEnv.mulG v.toNat, true⟩, ?_⟩
+    simp only [parseSecretExponent, hv, hk, h0, if_false]
+
+/-- ★ seeds, real codecs, curve and HMAC-SHA512 -/
+theorem C18_seed_reserialises_real (net : Network)
+    (hn : net ∈ all) (s : String) (o : Obj) (h : parseBip32Seed realKeyEnv s = .ok (some o)) :
+    ∃ tag rest ms n, parseColonPrefix s = some (tag, rest) ∧ seedBytes tag rest = some ms ∧ o = .node n ∧
+      fromMasterSecret realKeyEnv ms = .ok n ∧
+      n.kind = 32 ∧ n.depth = 0 ∧ n.fingerprint = [0, 0, 0, 0] ∧ n.childIndex = 0 ∧
+      n.chainCode = (Hash.hmacSha512 "Bitcoin seed".toUTF8.toList ms).drop 32 ∧
+      n.key.se = some (beNat ((Hash.hmacSha512 "Bitcoin seed".toUTF8.toList ms).take 32)) ∧
+      1 ≤ beNat ((Hash.hmacSha512 "Bitcoin seed".toUTF8.toList ms).take 32) ∧
+      beNat ((Hash.hmacSha512 "Bitcoin seed".toUTF8.toList ms).take 32) < Pycoin.Gen.Networks.genOrder ∧
+      n.key.compressed = true ∧ n.key.InRange realKeyEnv ∧
+      ∀ p, net.parseBip32Prv = some p →
+        ∃ t, hwif realEnv net n true = .ok t ∧ hparse realEnv realKeyEnv net 32 true t = .ok (some (.node n)) :=
+  C18_seed_reserialises realEnv real_laws realKeyEnv real_key_laws net hn s o h
+
+theorem C18_seed_refuses_real (s tag rest : String) (ms : Bytes) (hc : parseColonPrefix s = some (tag, rest))
+    (hms : seedBytes tag rest = some ms)
+    (h : beNat ((Hash.hmacSha512 "Bitcoin seed".toUTF8.toList ms).take 32) = 0 ∨
+      beNat ((Hash.hmacSha512 "Bitcoin seed".toUTF8.toList ms).take 32) ≥ Pycoin.Gen.Networks.genOrder) :
+    parseBip32Seed realKeyEnv s = .ok none :=
+  C18_seed_refuses realKeyEnv s tag rest ms hc hms h
+
+/-- ★ Electrum private forms, real codecs and curve -/
+theorem C18_electrum_prv_reserialises_real (net : Network)
+    (hn : net ∈ all) (s : String) (o : Obj)
+    (h : parseElectrumPrv realKeyEnv s = .ok (some o) ∨ parseElectrumSeed realKeyEnv s = .ok (some o)) :
+    ∃ blob k se, electrumBlob s = some blob ∧ o = .electrum k ∧ k.se = some se ∧ 1 ≤ se ∧
+      se < Pycoin.Gen.Networks.genOrder ∧
+      ((blob.length = 32 ∧ se = beNat blob) ∨ (blob.length = 16 ∧ se = beNat (realKeyEnv.electrumStretch (b2h blob)))) ∧
+      k.compressed = false ∧ k.InRange realKeyEnv ∧
+      ∀ p, net.parseWif = some p →
+        ∃ t, keyText realEnv net k = .ok t ∧ parseWif realEnv realKeyEnv net t = .ok (some (.key k)) :=
+  C18_electrum_prv_reserialises realEnv real_laws realKeyEnv real_key_laws net hn s o h
+
+/-- ★ Electrum public form, real codecs and curve -/
+theorem C18_electrum_pub_reserialises_real (net : Network) (hn : net ∈ all)
+    (s : String) (o : Obj) (h : parseElectrumPub realKeyEnv s = .ok (some o)) :
+    ∃ blob k t, electrumBlob s = some blob ∧ blob.length = 64 ∧ o = .electrum k ∧ k.se = none ∧ k.compressed = false ∧
+      k.pub = ((beNat (blob.take 32) : Int), (beNat (blob.drop 32) : Int)) ∧ k.InRange realKeyEnv ∧
+      keyText realEnv net k = .ok t ∧ parseSec realKeyEnv net t = .ok (some (.key k)) :=
+  C18_electrum_pub_reserialises realEnv realKeyEnv real_key_laws net hn s o h
+
+theorem C18_electrum_refuses_real (s : String) (blob : Bytes) (hb : electrumBlob s = some blob) :
+    ((blob.length ≠ 32 ∨ beNat blob = 0 ∨ beNat blob ≥ Pycoin.Gen.Networks.genOrder) →
+      parseElectrumPrv realKeyEnv s = .ok none) ∧
+    ((blob.length ≠ 64 ∨ beNat (blob.take 32) ≥ Pycoin.Gen.Networks.genP ∨
+        beNat (blob.drop 32) ≥ Pycoin.Gen.Networks.genP) → parseElectrumPub realKeyEnv s = .ok none) :=
+  C18_electrum_refuses realKeyEnv s blob hb
+
+/-- the instance is not vacuous: the laws hold of an environment in which the generator itself is a key (`1 • G = G`) -/
+example : realKeyEnv.order ≤ 2 ^ 256 ∧ realKeyEnv.p ≤ 2 ^ 256 := ⟨real_key_laws.order256, real_key_laws.p256⟩
 
 /-! ## one `parseable_str` object, several networks and entry points -/
 
